@@ -610,8 +610,22 @@ def _merge_code_for_single_file(logic_code: str, runner_code: str) -> str:
                 i += 1
         return import_strs, body
 
-    logic_lines = logic_code.splitlines()
-    runner_lines = runner_code.splitlines()
+    def _source_lines(code: str) -> List[str]:
+        """Split generated source at ``\n`` only.
+
+        🛡️ `str.splitlines()` also breaks at U+2028, U+2029, U+0085, form feed
+        and friends. Those may sit inside a docstring (a machine id is echoed
+        there), where Python does not end the line: text after one was taken
+        for a top-level ``import`` line and hoisted out of the docstring
+        into the module's imports — as code.
+        """
+        lines = code.split("\n")
+        if lines and lines[-1] == "":
+            lines.pop()
+        return lines
+
+    logic_lines = _source_lines(logic_code)
+    runner_lines = _source_lines(runner_code)
 
     # 🕵️‍♂️ Collect all unique top-level import blocks from both parts.
     logic_imports, logic_body = _split_imports_and_body(logic_lines)
